@@ -1052,8 +1052,16 @@ func (e *Engine) makeSlice(st *State, f *Frame, x *ssa.MakeSlice) {
 	lt := e.get(st, f, x.Len).(*Term)
 	ct := e.get(st, f, x.Cap).(*Term)
 	elem := x.Type().Underlying().(*types.Slice).Elem()
+	_, lenSigned, _ := intWidth(x.Len.Type())
+	_, capSigned, _ := intWidth(x.Cap.Type())
+	constInt := func(t *Term, signed bool) int {
+		if signed {
+			return int(t.Int64())
+		}
+		return int(t.Uint64()) // make([]T, n) with n of an unsigned type (e.g. a uint8 count): 255 is 255, not -1
+	}
 	if lt.IsConst() && ct.IsConst() {
-		n, c := int(lt.Int64()), int(ct.Int64())
+		n, c := constInt(lt, lenSigned), constInt(ct, capSigned)
 		if n < 0 || c < n {
 			e.goPanic(st, "makeslice: len out of range", nil)
 			return
@@ -1068,7 +1076,19 @@ func (e *Engine) makeSlice(st *State, f *Frame, x *ssa.MakeSlice) {
 	// fork over feasible concrete lengths (bounded)
 	l64 := lt
 	if l64.sort.W != 64 {
-		l64 = ZeroExt(l64, 64)
+		if lenSigned {
+			l64 = SignExt(l64, 64)
+		} else {
+			l64 = ZeroExt(l64, 64)
+		}
+	}
+	if lenSigned && e.feasible(st, BVSlt(l64, ConstU(0, 64))) {
+		o := st.clone()
+		o.assume(BVSlt(l64, ConstU(0, 64)))
+		e.goPanic(o, "makeslice: len out of range", nil)
+		e.pushWork(o)
+		e.stats.forks++
+		st.assume(BVSge(l64, ConstU(0, 64)))
 	}
 	first := true
 	var cont *State
